@@ -156,7 +156,7 @@ Section Prune.
     end.
 
   (* Verify with the workers' iterations taken in feeding order *)
-  Definition verify (fuel : nat) (st : store) (basestr : bytes) (repair : bool) (s : node)
+  Definition verify_raw (fuel : nat) (st : store) (basestr : bytes) (repair : bool) (s : node)
     : node * list verify_msg * option walk_err :=
     let (ids, e) := verify_ids fuel st basestr s in
     let (s', msgs) := verify_all st repair ids s in
@@ -172,9 +172,17 @@ Section Prune.
     | Some i => let (s', m) := verify_one st repair i (fst x) in ((s', snd x ++ m), None)
     end.
 
-  Definition verify_eager (fuel : nat) (st : store) (basestr : bytes) (repair : bool) (s : node)
+  Definition verify_eager_raw (fuel : nat) (st : store) (basestr : bytes) (repair : bool) (s : node)
     : node * list verify_msg * option walk_err :=
     walk_root (@fst node (list verify_msg)) (verify_eager_file st repair) fuel basestr (st_base st) (s, []).
+
+  (* LocalStore.Verify: "Verify is the check: it reads with verification whatever the store is otherwise
+     configured to trust" -- the method works on its own copy of the store with SkipVerify switched off.
+     [verify_raw] is the body run on that copy (it is also what Verify was before that fix, when it was run
+     on the store as configured and a SkipVerify store reported nothing). *)
+  Definition verifying (st : store) : store := mkStore (st_base st) (st_unc st) false.
+  Definition verify (fuel : nat) (st : store) := verify_raw fuel (verifying st).
+  Definition verify_eager (fuel : nat) (st : store) := verify_eager_raw fuel (verifying st).
 End Prune.
 
 (* ---------- S3Store ---------- *)
